@@ -141,7 +141,12 @@ impl<P: Problem> Configuration<P> {
     /// # }
     /// ```
     pub fn to_ron(&self, path: impl AsRef<Path>) -> ExecResult<()> {
+        #[cfg(mahf_verif)]
+        crate::verif::io::before_create(path.as_ref())
+            .wrap_err("failed to create configuration file")?;
         let file = File::create(path.as_ref()).wrap_err("failed to create configuration file")?;
+        #[cfg(mahf_verif)]
+        let file = crate::verif::io::wrap(path.as_ref(), file);
         let mut writer = std::io::BufWriter::new(file);
         ron::ser::to_writer_pretty(
             &mut writer,
